@@ -974,7 +974,7 @@ def replay(ctx, path):
 
     torch.set_num_threads(1)
     rp = json.loads(open(path).read())
-    sc = rp["scenario"]
+    sc = rp.get("scenario")
     if rp.get("stage") == "switch":
         out = run_switch_case(rp["case"])
         print("replay switch:", {k: [round(x, 4) for x in v["occupation"]] for k, v in out.items()})
